@@ -58,6 +58,13 @@ THEOREMS = [P + n for n in (
     "generated_widen_form_ok",
     "aggregate_views_consistent",
     "rebind_breaks_views_witness",
+    "quantified_empty",
+    "quantified_null_probe",
+    "in_subquery_3vl",
+    "not_in_subquery_is_all_ne",
+    "generated_subquery_env_ok",
+    "subquery_env_spec",
+    "wrapped_subquery_comparison_witness",
 )]
 
 CMP_PY = {ast.Eq: "eq", ast.NotEq: "ne", ast.Lt: "lt", ast.LtE: "le", ast.Gt: "gt", ast.GtE: "ge"}
@@ -318,6 +325,26 @@ def translate(chk: Check) -> str:
             problems.append(f"env.{nm} is not a small natural number: {v!r}")
             v = {"FIRST": 0, "LAST": 1, "NULL_PLACEHOLDER": 0}[nm]
         consts[nm] = v
+    # how PythonExecutor.__init__ registers the subquery entries: the bound method itself, or something wrapping it
+    from sqlglot.executor.python import PythonExecutor
+
+    sub_env = {}
+    try:
+        ex_ = PythonExecutor(tables={})
+        for key, meth in (("SUBQUERY_COMPARISON", "_subquery_comparison"), ("SUBQUERY_EXISTS", "_subquery_exists"),
+                          ("SUBQUERY_SCALAR", "_subquery_scalar")):
+            f = ex_.env.get(key)
+            if getattr(f, "__self__", None) is ex_ and getattr(f, "__func__", None) is getattr(PythonExecutor, meth):
+                sub_env[key] = "bare"
+            elif hasattr(f, "__wrapped__") and getattr(getattr(f, "__code__", None), "co_freevars", ()) == ("func", "predicate"):
+                sub_env[key] = "null_if_any"
+            else:
+                sub_env[key] = "other"
+    except Exception as e:  # noqa
+        problems.append(f"PythonExecutor().env subquery entries: {type(e).__name__}")
+    for key in ("SUBQUERY_COMPARISON", "SUBQUERY_EXISTS", "SUBQUERY_SCALAR"):
+        sub_env.setdefault(key, "other")
+    chk.cov["subquery_env"] = sub_env
     facts = _executor_facts(problems)
     for p in problems:
         chk.broken.append({"kind": "translator", "what": "C11 translator: structure changed: " + p})
@@ -342,6 +369,9 @@ def translate(chk: Check) -> str:
         "def envIdentity : List (String × String) := ["
         + ", ".join(f'("{k}", "{v}")' for k, v in sorted(ident.items())) + "]\n"
         f"def widenForm : WidenForm := .{facts['widen']}\n"
+        "def subqueryEnv : List (String × String) := ["
+        + ", ".join(f'("{k}", "{sub_env[k]}")' for k in ("SUBQUERY_COMPARISON", "SUBQUERY_EXISTS", "SUBQUERY_SCALAR")) + "]\n"
+        f"def subqCmpWrapped : Bool := {lb(sub_env['SUBQUERY_COMPARISON'] != 'bare')}\n"
         "end SqlglotModel.Generated.C11\n"
     )
 
@@ -592,7 +622,8 @@ def real_subq_cmp(fn, quantifier, v, xs):
 
     ex = executor()
     ex._subquery_table = lambda plan_name, scope, args: Table(("v",), [(x,) for x in xs])
-    return ex._subquery_comparison(v, "_sq_0", None, fn, quantifier)
+    # through the ENV entry (as generated code calls it), not the method: a wrapper around it is part of the behaviour
+    return ex.env["SUBQUERY_COMPARISON"](v, "_sq_0", None, fn, quantifier)
 
 
 def guarded(fn, *a):
@@ -727,8 +758,8 @@ def build_cases(chk: Check):
     for _ in range(chk.pick(300, 3000)):
         dom = STRS if rng.random() < 0.25 else INTS
         fn = rng.choice(CMP_KEYS)
-        v = None if rng.random() < 0.15 else rng.choice(dom)
-        xs = [None if rng.random() < 0.25 else rng.choice(dom) for _ in range(rng.choice([0, 1, 2, 3, 4]))]
+        v = None if rng.random() < 0.3 else rng.choice(dom)
+        xs = [None if rng.random() < rng.choice([0.25, 0.25, 1.0]) else rng.choice(dom) for _ in range(rng.choice([0, 0, 1, 2, 3, 4]))]
         quant = rng.choice(["ANY", "ALL"])
         cases.append(("subq_cmp", {"op": "subq_cmp", "fn": fn, "quantifier": quant, "v": v, "xs": xs},
                       guarded(real_subq_cmp, fn, quant, v, xs), False, None))
@@ -1617,6 +1648,69 @@ def gen_join_agg(rng):
     return db, sql, ordered
 
 
+def subq_class(sql):
+    """family key of a gen_subq_pred query: predicate form, where it is used, correlated or not"""
+    import re
+
+    form = ("exists" if "EXISTS" in sql else "notin" if " NOT IN (" in sql else "in" if " IN (SELECT" in sql
+            else "all" if " ALL (" in sql else "any")
+    place = "case" if "CASE WHEN" in sql else "where"
+    corr = "corr" if re.search(r"s\.[ab] (=|>=) [xyz]\.", sql) else "uncorr"
+    return f"subq:{form}:{place}:{corr}"
+
+
+def gen_subq_pred(rng):
+    """Targeted family: subquery predicates the executor evaluates itself -- [NOT] IN (SELECT …), op ANY / op ALL
+    (SELECT …), [NOT] EXISTS -- correlated or not, x NULL probes x subquery results that are empty / all-NULL /
+    NULL-containing.  The predicate is used in WHERE and/or shown through a CASE (TRUE -> 1, FALSE -> 0, UNKNOWN ->
+    NULL), so the whole three-valued truth table is observable.  -> (db, sql, ordered, which)"""
+    t, u = rng.choice([("x", "y"), ("y", "z"), ("x", "x"), ("z", "y")])
+    kind = rng.choice(["int", "int", "text"])
+    pc = rng.choice(["a", "b"]) if kind == "int" else "c"
+    sc = rng.choice(["a", "b"]) if kind == "int" else "c"
+    conds = []
+    r = rng.random()
+    if r < 0.3:
+        conds.append(f"s.{sc} > 100" if kind == "int" else f"s.{sc} > 'zzz'")          # empty result
+    elif r < 0.45:
+        conds.append(f"s.{sc} IS NULL")                                                  # all-NULL result
+    elif r < 0.6:
+        conds.append(f"s.{sc} IS NOT NULL")
+    if rng.random() < 0.4:
+        conds.append(f"s.b = {t}.b" if rng.random() < 0.7 else f"s.a >= {t}.a")         # correlated
+    where_s = (" WHERE " + " AND ".join(conds)) if conds else ""
+    sub = f"(SELECT s.{sc} FROM {u} AS s{where_s})"
+    which = ("sqlite", "duckdb")
+    form = rng.random()
+    if form < 0.35:
+        pred = f"{t}.{pc} {'NOT IN' if rng.random() < 0.6 else 'IN'} {sub}"
+    elif form < 0.75:
+        op = rng.choice(["=", "<>", "<", "<=", ">", ">="])
+        pred = f"{t}.{pc} {op} {rng.choice(['ALL', 'ALL', 'ANY'])} {sub}"
+        which = ("duckdb",)  # SQLite has no quantified comparison
+    else:
+        sube = f"(SELECT 1 AS one FROM {u} AS s{where_s})"
+        pred = f"{'NOT ' if rng.random() < 0.5 else ''}EXISTS {sube}"
+    place = rng.random()
+    show = f"CASE WHEN {pred} THEN 1 WHEN NOT ({pred}) THEN 0 END AS p"
+    if place < 0.45:
+        sql = f"SELECT {t}.a AS a, {t}.b AS b, {t}.c AS c FROM {t} WHERE {pred}"
+    elif place < 0.8:
+        sql = f"SELECT {t}.a AS a, {t}.b AS b, {t}.c AS c, {show} FROM {t}"
+    else:
+        sql = f"SELECT {t}.a AS a, {t}.b AS b, {t}.c AS c FROM {t} WHERE {t}.b IS NOT NULL AND {pred}"
+    db = {k: [] for k in ("x", "y", "z")}
+
+    def rows(n):
+        return [(None if rng.random() < 0.35 else rng.choice([0, 1, 2]), None if rng.random() < 0.3 else rng.choice([0, 1, 2]),
+                 None if rng.random() < 0.35 else rng.choice(["", "a", "b"])) for _ in range(n)]
+
+    db[t] = rows(rng.randint(2, 4))
+    if u != t:
+        db[u] = [] if rng.random() < 0.2 else rows(rng.randint(1, 4))
+    return db, sql, False, which
+
+
 def search(chk: Check, hints: list, budget_s: float) -> None:
     from vf.props import c11_oracle as O
 
@@ -1679,6 +1773,20 @@ def search(chk: Check, hints: list, budget_s: float) -> None:
     # 2. corpus + random queries of the fragment
     tried = 0
     while time.time() - t0 < budget_s and len(chk.violations) < 3:
+        if rng.random() < 0.10:
+            db, sql, ordered, which = gen_subq_pred(rng)
+            tried += 1
+            chk.count("family:subquery-predicates")
+            st, detail = compare_sql(db, sql, ordered, which)
+            bump("subq:" + st, {"sql": sql, "detail": detail[:200]} if st != "agree" else None)
+            chk.case(("subq", sql, db), nontrivial=True, sample={"sql": sql, "db": db, "status": st} if tried % 97 == 1 else None)
+            if st == "violation":
+                db2 = shrink_rows(db, lambda d: compare_sql(d, sql, ordered, which)[0] == "violation")
+                detail = compare_sql(db2, sql, ordered, which)[1]
+                chk.report_violation(subq_class(sql), f"{sql} over {db2}: {detail}",
+                                     {"kind": "sql", "db": {k: rows_json(v) for k, v in db2.items()}, "sql": sql,
+                                      "ordered": ordered, "which": list(which)})
+            continue
         if rng.random() < 0.12:
             db, sql, ordered = gen_join_agg(rng)
             tried += 1
